@@ -515,6 +515,22 @@ def run(rep, ctx):
             if pos:
                 got[(tgt, pos[0])] = rhs
         b1.check(got == want, "quadratic-corners", short_loc(f.loc), "coef >= 0: [lb, ub] += coef*[first, second]; coef < 0: swapped", str(got))
+        ty = [n for n in f.walk() if n["k"] == "IfStmt" and "CONTINUOUS" in render(kids(n)[1])]
+        badq = None
+        if len(ty) == 1:
+            import itertools
+            for i1, i2, ic in itertools.product((False, True), repeat=3):
+                env = {"INTEGER!=model.var_type(v1)": not i1, "INTEGER!=model.var_type(v2)": not i2, "model.is_integer_var(v1)": i1, "model.is_integer_var(v2)": i2,
+                       "is_integer(coef)": ic, "model.var_type(v1)!=INTEGER": not i1, "model.var_type(v2)!=INTEGER": not i2}
+                try:
+                    dem = truth(kids(ty[0])[0], env)
+                except KeyError as ke:
+                    raise AnalysisBroken("C06.B1: unrecognised atom %s in the type test of the quadratic terms" % ke)
+                if not (i1 and i2 and ic) and not dem:
+                    badq = "a product with %s first variable, %s second variable and %s coefficient keeps the type INTEGER" % (
+                        "an integer" if i1 else "a continuous", "an integer" if i2 else "a continuous", "an integral" if ic else "a fractional")
+        b1.check(len(ty) == 1 and badq is None, "quadratic-type", short_loc(f.loc), "a sum of products is integer only if both variables of every product are integer and every coefficient is integral",
+                 "type of quadratic terms: %s - the result variable of the expression is declared integer although the expression takes fractional values" % (badq or "unexpected shape"))
     pb = [f for f in funcs if f.qn == "mp::BoundComputations::ProductBounds"]
     for f in pb[:1]:
         il = [x for x in f.walk() if x["k"] == "InitListExpr" and len(kids(x)) == 4]
